@@ -152,6 +152,8 @@ MARKERS_ALL = ["- ", "*  ", "+   ", "-    ", "1. ", "9) ", "123.  ", "12)   ", "
 def _sharded(jobs, base, var="a", weight=1, spec=None):
     for name, extra in shard_extras(var, exclude=(spec or {}).get(var, {}).get("exclude", "")):
         p = dict(base)
+        if name == "chr60" and len(p["scaffold"]) == 4 and p.get("quick"):
+            p["scaffold"] = free_doc(2, "\n")  # documents starting with '<' (HTML block regexes): 500+ CPU-s with three free characters
         sp = {k: dict(v) for k, v in (spec or {}).items()}
         sp[var] = dict(sp.get(var, {}), extra=(f"({sp[var]['extra']}) and ({extra})" if sp.get(var, {}).get("extra") else extra))
         p["spec"] = sp
@@ -167,7 +169,7 @@ def jobs(tier, seed):
     wrappers = [["quote"]] + [[f"list:{m}"] for m in (MARKERS_QUICK if tier == "quick" else MARKERS_ALL)]
     for i, w in enumerate(wrappers):
         kk = k if (tier == "thorough" or i < 2) else k - 1  # quick: the third marker shape on FREE(2)
-        _sharded(jobs, {"cfg": CM, "scaffold": free_doc(kk, "\n"), "wraps": w}, weight=10, spec=spec)
+        _sharded(jobs, {"cfg": CM, "scaffold": free_doc(kk, "\n"), "wraps": w, "quick": tier == "quick"}, weight=10, spec=spec)
     doubles = [["quote", "quote"], ["list:- ", "quote"], ["quote", "list:1. "]]
     if tier == "quick":
         doubles = [["list:1. ", "quote"], ["quote", "list:- "]]
